@@ -120,6 +120,24 @@ theorem welchX_delay_padded (x y : Nat → K) (w : Nat → K) (c : K) (np st : N
 
 end padded
 
+section conjdelay
+variable {K : Type} [Field K]
+
+/-- `tw(q·(n − d % n)) = conj(tw(q·d))`: the phase of an advance is the conjugate of that of the delay. -/
+theorem tw_conj_delay (tw : Nat → CxS K) (n : Nat) (hpos : 0 < n)
+    (hmul : ∀ a b, tw (a + b) = tw a * tw b) (hn : tw n = 1)
+    (hunit : ∀ m, CxS.conj (tw m) * tw m = 1) (q d : Nat) :
+    tw (q * (n - d % n)) = CxS.conj (tw (q * d)) := by
+  have h1 : tw (q * (n - d % n)) * tw (q * d) = 1 := by
+    rw [← hmul, ← Nat.mul_add, circ_advance n d hpos, ← Nat.mul_assoc]
+    exact tw_mul_period tw n hmul hn _
+  calc tw (q * (n - d % n)) = tw (q * (n - d % n)) * (CxS.conj (tw (q * d)) * tw (q * d)) := by
+        rw [hunit, mul_one]
+    _ = (tw (q * (n - d % n)) * tw (q * d)) * CxS.conj (tw (q * d)) := by ring
+    _ = _ := by rw [h1, one_mul]
+
+end conjdelay
+
 section hannk
 variable {K : Type} [Field K] [LinearOrder K] [IsStrictOrderedRing K]
 
